@@ -12,6 +12,7 @@ mod model;
 mod ops;
 mod orderpair;
 mod profiles;
+mod rawpayload;
 mod report;
 mod scale;
 mod shared;
@@ -133,14 +134,16 @@ pub struct ExecOut {
 
 static LOG_TRACE: std::sync::atomic::AtomicBool = std::sync::atomic::AtomicBool::new(false);
 static REUSE: std::sync::atomic::AtomicBool = std::sync::atomic::AtomicBool::new(false);
+static SHALLOW: std::sync::atomic::AtomicBool = std::sync::atomic::AtomicBool::new(false);
 
 fn ctx_head(profile: &str, seed: u64, run: u64, exec_i: u64, layouts: &[u64], faults: &Faults) -> String {
     let l: Vec<String> = layouts.iter().map(|x| x.to_string()).collect();
     let lt = LOG_TRACE.load(Relaxed) as u8;
     let ru = REUSE.load(Relaxed) as u8;
+    let sc = SHALLOW.load(Relaxed) as u8;
     let build = if cfg!(debug_assertions) { "checked" } else if cfg!(feature = "std") { "relnd" } else { "relnd-nostd" };
     format!(
-        "{{\"type\":\"violation\",\"profile\":\"{profile}\",\"seed\":{seed},\"run\":{run},\"exec\":{exec_i},\"build\":\"{build}\",\"log_trace\":{lt},\"addr_reuse\":{ru},\"layouts\":[{}],\"faults\":\"{}\",\"ops\":\"",
+        "{{\"type\":\"violation\",\"profile\":\"{profile}\",\"seed\":{seed},\"run\":{run},\"exec\":{exec_i},\"build\":\"{build}\",\"log_trace\":{lt},\"addr_reuse\":{ru},\"shallow_clone\":{sc},\"layouts\":[{}],\"faults\":\"{}\",\"ops\":\"",
         l.join(","),
         json_escape(&faults.text())
     )
@@ -150,7 +153,7 @@ fn ctx_head(profile: &str, seed: u64, run: u64, exec_i: u64, layouts: &[u64], fa
 pub fn execute(head: &str, src: Source<'_>, faults: &Faults, layout_seed: u64, o: &ExecOpts) -> ExecOut {
     let before = sh().stats;
     alloc::reset(layout_seed, true);
-    exec::reset(faults.clone(), o.want_snaps, o.record_dtors, o.c16_markers, if matches!(src, Source::Generate { .. }) { o.dtor_downgrade_p } else { 0 }, layout_seed ^ 0x64746f72);
+    exec::reset(faults.clone(), o.want_snaps, o.record_dtors, o.c16_markers, if matches!(src, Source::Generate { .. }) { o.dtor_downgrade_p } else { 0 }, layout_seed ^ 0x64746f72, SHALLOW.load(Relaxed));
     report::ctx_begin(head);
     sh().heartbeat += 1;
     st(St::execs, 1);
@@ -198,7 +201,7 @@ pub fn execute(head: &str, src: Source<'_>, faults: &Faults, layout_seed: u64, o
                 // leave `keep` handles for the very end so that "which outside
                 // handle dies last" varies, then release those too
                 let mut guard = 0;
-                while let Some(op) = gen::next_drain(&mut rng) {
+                while let Some(op) = gen::next_drain(&mut rng, kn, &mut g) {
                     run_op(&op, &mut issued);
                     guard += 1;
                     if guard > 400 {
@@ -338,6 +341,8 @@ fn do_run(rc: &RunCfg<'_>, run: u64) {
     if reuse {
         st(St::f_addr_reuse_runs, 1);
     }
+    // payload: in half of the runs its Clone impl yields a copy without the stored handles
+    SHALLOW.store(Rng(mix(rc.seed, run, 11)).chance(1, 2), Relaxed);
     let trace = Rng(mix(rc.seed, run, 9)).chance(1, 8);
     LOG_TRACE.store(trace, Relaxed);
     set_log_level(trace);
@@ -351,6 +356,13 @@ fn do_run(rc: &RunCfg<'_>, run: u64) {
             let mut rng = Rng(mix(rc.seed, run, 7));
             let pair = orderpair::generate(&mut rng, rc.thorough);
             run_digest = order_pair(p.name, rc.seed, run, &pair.a, &pair.b, pair.tail, layout_seed, &opts);
+        }
+        Mode::Plain if matches!(p.name, "C01" | "C03" | "C04") && Rng(mix(rc.seed, run, 12)).chance(1, 16) => {
+            // the payload type is a compile-time axis: a payload without drop glue that
+            // owns its handles as raw pointers, in small fully recorded adoption graphs
+            let mut rng = Rng(hist_seed);
+            let case = rawpayload::generate(&mut rng);
+            run_digest = raw_one(p.name, rc.seed, run, &case, layout_seed);
         }
         Mode::Plain => {
             let head = ctx_head(p.name, rc.seed, run, 0, &[layout_seed], &none);
@@ -744,6 +756,35 @@ fn typed_one(pname: &str, seed: u64, run: u64, ty: u32, prog: &[typed::T], layou
     fnv(h, obs as u64)
 }
 
+/// C01/C03/C04 on a payload type without drop glue (see rawpayload.rs).
+fn raw_one(pname: &str, seed: u64, run: u64, case: &rawpayload::RawCase, layout_seed: u64) -> u64 {
+    alloc::reset(layout_seed, true);
+    report::reset_flags();
+    let text = case.text();
+    let head = format!("{{\"type\":\"violation\",\"profile\":\"{pname}\",\"seed\":{seed},\"run\":{run},\"exec\":0,\"layouts\":[{layout_seed}],\"faults\":\"\",\"ops\":\"{}", json_escape(&text));
+    report::ctx_begin(&head);
+    st(St::execs, 1);
+    st(St::p_raw_payload_cases, 1);
+    let mut on_step = |i: usize| report::STEP.store(i as u32, Relaxed);
+    let r = std::panic::catch_unwind(std::panic::AssertUnwindSafe(|| rawpayload::run(case, &mut on_step)));
+    match r {
+        Ok(None) => {}
+        Ok(Some((kind, cause, msg, step))) => {
+            report::STEP.store(step as u32, Relaxed);
+            report::violation(kind, cause, &msg)
+        }
+        Err(_) => report::violation("internal-panic", "panic-in-raw-payload-case", &format!("a panic escaped while executing the case at {}", last_panic_location())),
+    }
+    st(St::calls, (case.edges.len() * 3 + case.order.len() + case.k * 2) as u64);
+    st(St::steps, case.order.len() as u64);
+    let h = fnv_bytes(0xcbf29ce484222325, text.as_bytes());
+    if !case.edges.is_empty() {
+        st(St::nontrivial, 1);
+        shared::distinct_insert(h);
+    }
+    h
+}
+
 /// C07: one program on both families.
 fn diff_one(pname: &str, seed: u64, run: u64, prog: &[diffstd::D], layout_seed: u64) -> u64 {
     alloc::reset(layout_seed, true);
@@ -917,12 +958,26 @@ fn replay(a: &Args) -> i32 {
         out(&format!("{{\"type\":\"ok\",\"digest\":\"{d:016x}\"}}\n"));
         return 0;
     }
+    if a.get("--ops").unwrap_or("").trim_start().starts_with("Raw ") {
+        shared::init();
+        alloc::init(true);
+        alloc::set_fault_reporter(report::on_fault);
+        install_panic_hook();
+        REUSE.store(a.has("--addr-reuse"), Relaxed);
+        alloc::set_reuse(a.has("--addr-reuse"));
+        let l: u64 = a.get("--layouts").unwrap_or("1").split(',').next().unwrap().parse().unwrap_or(1);
+        let case = rawpayload::RawCase::parse(a.get("--ops").unwrap_or("")).unwrap_or_else(|e| die(&e));
+        let d = raw_one(pname, a.num("--seed", 0), a.num("--run", 0), &case, l);
+        out(&format!("{{\"type\":\"ok\",\"digest\":\"{d:016x}\"}}\n"));
+        return 0;
+    }
     let (ops, inline) = ops::parse_history(a.get("--ops").unwrap_or("")).unwrap_or_else(|e| die(&e));
     let mut faults = Faults::parse(a.get("--faults").unwrap_or("")).unwrap_or_else(|e| die(&e));
     faults.inline = inline;
     report::SOFT_MASK.store(if a.has("--all-oracles") { report::S_ALL } else { report::soft_mask_for(pname) }, Relaxed);
     LOG_TRACE.store(a.has("--log-trace"), Relaxed);
     set_log_level(a.has("--log-trace"));
+    SHALLOW.store(a.has("--shallow-clone"), Relaxed);
     REUSE.store(a.has("--addr-reuse"), Relaxed);
     alloc::set_reuse(a.has("--addr-reuse"));
     let layouts: Vec<u64> = a.get("--layouts").unwrap_or("1").split(',').filter(|s| !s.is_empty()).map(|s| s.parse().unwrap_or_else(|_| die("bad layout"))).collect();
@@ -978,6 +1033,8 @@ fn scale_cmd(a: &Args) -> i32 {
     let selfsame = a.num("--selfsame-every", 0) as usize;
     let stack_kb = a.num("--stack-kb", 128) as usize;
     let seed = a.num("--seed", 1);
+    scale::DEAD_ACT.store(match a.get("--dead-act") { Some("clone") => 1, Some("drop") => 2, _ => 0 }, Relaxed);
+    scale::DEAD_AT.store(a.num("--dead-at", 0) as usize, Relaxed);
     shared::init();
     alloc::reset(1, false);
     let shape2 = shape.clone();
@@ -996,6 +1053,16 @@ fn scale_cmd(a: &Args) -> i32 {
         "{{\"type\":\"scale\",\"shape\":\"{shape}\",\"n\":{},\"edges\":{},\"stack_kb\":{stack_kb},\"destroyed\":{},\"double\":{},\"trace_calls\":{},\"pops\":{},\"visits\":{},\"scanned\":{},\"build_us\":{},\"drop_us\":{},\"count_errors\":{}}}\n",
         o.n, o.edges, o.destroyed, o.double, o.trace_calls, o.pops, o.visits, o.scanned, o.build_us, o.drop_us, o.count_errors
     ));
+    0
+}
+
+fn soak_cmd(a: &Args) -> i32 {
+    let max_pow = a.num("--max-pow", 24) as u32;
+    shared::init();
+    alloc::reset(1, false);
+    let o = alloc::sut(|| scale::soak(max_pow));
+    let f: Vec<String> = o.failures.iter().map(|(p, off, what)| format!("{{\"pow\":{p},\"off\":{off},\"what\":\"{what}\"}}")).collect();
+    out(&format!("{{\"type\":\"soak\",\"max_pow\":{max_pow},\"traces\":{},\"witnesses\":{},\"wall_ms\":{},\"failures\":[{}]}}\n", o.traces, o.witnesses, o.wall_ms, f.join(",")));
     0
 }
 
@@ -1087,6 +1154,7 @@ fn main() {
         "batch" => batch(&a),
         "replay" => replay(&a),
         "scale" => scale_cmd(&a),
+        "soak" => soak_cmd(&a),
         "dump" => dump(&a),
         "replay-many" => replay_many(&a),
         _ => die("usage: cactus-sim batch|replay ..."),
